@@ -39,9 +39,7 @@ def fields_of(out):
 
 
 # ----------------------------------------------------------------------------- one batch: impl, model, oracle
-def run_batch(ctx, binary, cases, brief=False):
-    """returns per case (impl_line, driver_fields)"""
-    lines = [G.case_line("knn", c) for c in cases]
+def _run_chunk(ctx, binary, lines, brief):
     impl = ctx.run_impl_cases(binary, lines, timeout=1800)
     dl = []
     for l, io in zip(lines, impl):
@@ -54,8 +52,30 @@ def run_batch(ctx, binary, cases, brief=False):
                 extra += " raw=%s" % f["raw"]
             dl.append(l + extra + (" brief=1" if brief else ""))
     rc, model, err = ctx.run_model("model_c02", dl, timeout=3000)
-    if rc != 0 or len(model) != len(lines):
-        ctx.broken("model-driver", "model_c02", "model driver failed: rc=%s %s" % (rc, err[-300:]))
+    return impl, rc, model, err
+
+
+def run_batch(ctx, binary, cases, brief=False):
+    """returns per case (line, impl_line, driver_fields, driver_line); big batches are split over worker threads
+    (each worker runs the harness and then the Lean driver on its chunk as separate processes)"""
+    lines = [G.case_line("knn", c) for c in cases]
+    chunk = 100
+    if len(lines) <= chunk:
+        parts = [_run_chunk(ctx, binary, lines, brief)]
+    else:
+        from concurrent.futures import ThreadPoolExecutor
+        subs = [lines[i:i + chunk] for i in range(0, len(lines), chunk)]
+        with ThreadPoolExecutor(max_workers=min(8, os.cpu_count() or 2)) as ex:
+            parts = list(ex.map(lambda sub: _run_chunk(ctx, binary, sub, brief), subs))
+    impl, model = [], []
+    for im, rc, mo, err in parts:
+        if rc != 0 or len(mo) != len(im):
+            ctx.broken("model-driver", "model_c02", "model driver failed: rc=%s %s" % (rc, err[-300:]))
+            return None
+        impl += im
+        model += mo
+    if len(model) != len(lines):
+        ctx.broken("model-driver", "model_c02", "model driver answered %d of %d lines" % (len(model), len(lines)))
         return None
     return list(zip(lines, impl, [fields_of(m) if not m.startswith("bad-case") else {"bad": m} for m in model], model))
 
@@ -255,6 +275,24 @@ def correspond(ctx):
                 small.append(cc)
     for i in range(0, len(small), 600):
         judge(ctx, binary, small[i:i + 600], "every-k-small-N")
+    # high-volume leg on generic (practically tie-free) data: rare geometric configurations of the pruning bounds.
+    # >= 10^5 cover-tree queries in quick; every list is judged by the Lean oracle; L2 = the library's Euclidean distance
+    nvol = 2600 if quick else 40000
+    vol = []
+    for n in range(nvol):
+        rr = r.fork()
+        npts = rr.range(30, 60)
+        sp = {"cb": "plain", "metric": rr.choice(["L1", "Linf", "L2"]), "pts": G.pts_volume(rr, npts)}
+        methods = ["covertree"] + (["brute", "vptree"] if n % 8 == 0 else [])
+        k = rr.choice([1, 1, 2, 3, 4, 5, 8])
+        for method in methods:
+            cc = dict(sp)
+            cc.update({"k": k, "method": method, "vs": G.vantage_stream(rr, npts)})
+            vol.append(cc)
+    nq = sum(G.size(c) for c in vol if c["method"] == "covertree")
+    ctx.extra["volume_leg"] = {"sets": nvol, "cover_tree_queries": nq}
+    for i in range(0, len(vol), 800):
+        judge(ctx, binary, vol[i:i + 800], "volume-generic", brief=True)
     # large N: implementation against the O(N^2) specification (the theorems license the model side to be the spec)
     big = []
     sizes = [300] if quick else [500, 1000, 2000]
@@ -283,6 +321,9 @@ def correspond(ctx):
     ctx.assumptions += [
         "exact mode: all coordinates/distances/kernel values are integers or dyadics below 2^53, so the doubles the C++ "
         "code computes are exact and the driver's integer recomputation of every distance is the same number",
+        "metric=L2 (volume leg and corpus only, generic integer coordinates): the harness uses sqrt of the exact squared "
+        "distance, the driver the squared distance itself; sqrt is injective on these integers, so both order samples "
+        "identically; sums of rounded distances inside the searches are outside exact mode (oracle-only leg)",
         "the vantage-point stream is supplied through CUSTOM_UNIFORM_RANDOM_FUNCTION (multiples of 2^-20); theorems hold "
         "for every stream",
         "std::nth_element, std::partial_sort and std::priority_queue are modelled by their postconditions (theorems hold for "
